@@ -3,6 +3,7 @@ package valid
 import (
 	"errors"
 	"reflect"
+	"sort"
 	"strings"
 )
 
@@ -151,6 +152,34 @@ func (v *validCommon) valid(errBuf *strings.Builder) {
 			v.either(errBuf, fieldInfos)
 		case BothEq:
 			v.bothEq(errBuf, fieldInfos)
+		}
+	}
+}
+
+// requiredNoExistKeys 验证规则里设置了必填, 但输入里(map 的 key/url 的参数)不存在的内容
+// isExist 判断 key 是否在输入里, getName 获取错误信息里的名字
+func (v *validCommon) requiredNoExistKeys(errBuf *strings.Builder, ruleObj RM, isExist func(key string) bool, getName func(key string) string) {
+	keys := make([]string, 0, len(ruleObj))
+	for key := range ruleObj {
+		if !isExist(key) {
+			keys = append(keys, key)
+		}
+	}
+	sort.Strings(keys) // 保证输出顺序固定
+	for _, key := range keys {
+		for _, validName := range ValidNamesSplit(ruleObj[key]) {
+			validKey, _, cusMsg := ParseValidNameKV(validName)
+			if validKey != Required {
+				continue
+			}
+			if fn, err := v.getValidFn(validKey); err != nil || fn != nil { // 被自定义函数覆盖
+				continue
+			}
+			if cusMsg != "" {
+				errBuf.WriteString(GetJoinValidErrStr("", getName(key), "", cusMsg))
+				continue
+			}
+			errBuf.WriteString(GetJoinValidErrStr("", getName(key), "", ExplainEn, "it is", Required))
 		}
 	}
 }
